@@ -614,6 +614,23 @@ class JsNorm:
                 return ('has', recv, self.term(args[0], env))
             if meth == 'includes' and len(args) == 1:
                 return ('has', recv, self.term(args[0], env))
+            if meth == 'some' and len(args) == 1 and args[0][0] == 'arrow' and len(args[0][1]) == 1:
+                # xs.some(t => S.has(f(t)))  ==  S intersects {f(t) for t in xs}   (f = identity / toLowerCase / trim …)
+                _a, ps, body = args[0]
+                if body[0] == 'block' and len(body[1]) == 1 and body[1][0][0] == 'return':
+                    body = body[1][0][1]
+                if body[0] == 'call' and body[1][0] == 'member' and body[1][2] in ('has', 'includes') and len(body[2]) == 1:
+                    x = body[2][0]
+                    xform = None
+                    if x == ('name', ps[0]):
+                        xform = 'id'
+                    elif x[0] == 'call' and x[1][0] == 'member' and x[1][1] == ('name', ps[0]) and not x[2]:
+                        xform = {'toLowerCase': 'lower', 'toUpperCase': 'upper', 'trim': 'strip'}.get(x[1][2], x[1][2])
+                    if xform is not None and ps[0] not in repr(body[1][1]):
+                        other = self.term(body[1][1], env)
+                        mine = ('map', 'set', xform, recv)
+                        a, b2 = sorted([other, mine], key=repr)
+                        return ('intersects', a, b2)
             if meth == 'map' and len(args) == 1 and args[0][0] == 'arrow':
                 _a, ps, body = args[0]
                 if len(ps) == 1 and body[0] == 'call' and body[1][0] == 'member' and body[1][1] == ('name', ps[0]) and not body[2]:
